@@ -102,6 +102,7 @@ func (w *World) evidence(choices []Choice) []int64 {
 		out = append(out, a.PAlloc...)
 		out = append(out, int64(len(jpRoles)/2))
 		out = append(out, jpRoles...)
+		out = append(out, a.Tier)
 	}
 	out = append([]int64{int64(n)}, out...)
 	ids := w.taskIDs()
@@ -260,8 +261,11 @@ func Harness() vh.Harness {
 		if last.gangAll {
 			law(108, last.evidence, "")
 		}
-		// law 104 answers true whenever law 103 fails, so a failing 104 is exactly the documented mechanism: the walk
-		// skipped a tier whose voters agreed on nothing and a voter of that tier had vetoed the victim
+		// law 110 (unsigned): the real walk decided in the tier the recomputed votes decide in.  Law 104 answers true
+		// whenever 103 or 110 fails, so a failing 104 is exactly the documented mechanism as it HAPPENED: the real walk
+		// passed over earlier tiers (observed by the tier markers), decided where the recomputation decides, and a
+		// voter of a passed-over tier had vetoed the victim
+		law(110, last.evidence, "")
 		law(104, last.evidence, SigFallThrough)
 	}
 	gen := func(rng *vh.Rng, n int, emit func(id string, sel int, in []int64, kind string, nontrivial bool, desc any)) {
@@ -349,9 +353,50 @@ func Harness() vh.Harness {
 			if refusedHit > 0 {
 				cls += "+evict-refused"
 			}
+			// guard hits of the guarded laws: 109 (single drf tier, preempt attempt that evicted; "set" = at least two pods
+			// of one job in one attempt) and the role part of 105 (JobPipelined asked for a job with role minimums in a
+			// cycle that evicted)
+			g109, g109set, gRoles := 0, 0, 0
+			if drfOnly(spec) {
+				for _, c := range choices {
+					for _, g := range c.Groups {
+						for _, a := range g.Atts {
+							if a.Action != 1 || len(a.Order) == 0 {
+								continue
+							}
+							g109++
+							perJob := map[int64]int{}
+							for _, v := range a.Order {
+								perJob[w.jobOfTask(v)]++
+							}
+							for _, n := range perJob {
+								if n >= 2 {
+									g109set++
+									break
+								}
+							}
+						}
+					}
+				}
+			}
+			for _, e := range w.Trace {
+				if e.Kind == 13 && len(e.Roles) > 0 {
+					gRoles++
+				}
+			}
+			if g109 > 0 {
+				cls += "+law109-guard"
+			}
+			if g109set > 0 {
+				cls += "+drf-set"
+			}
+			if gRoles > 0 && evicted+discarded > 0 {
+				cls += "+role-minimums-asked"
+			}
 			kind := fmt.Sprintf("cycle/actions=%v/tiers=%d/%s", spec.Actions, len(spec.Tiers), cls)
 			desc := map[string]any{"nodes": len(spec.Nodes), "queues": len(spec.Queues), "jobs": len(spec.Jobs), "tasks": len(spec.Tasks),
-				"tiers": spec.Tiers, "choices": len(choices), "evicted": evicted, "pipelined": pipelined, "undone": discarded, "failed_pipelines": failedPipe, "faults": len(spec.Faults), "refuse": len(spec.Refuse)}
+				"tiers": spec.Tiers, "choices": len(choices), "evicted": evicted, "pipelined": pipelined, "undone": discarded, "failed_pipelines": failedPipe, "faults": len(spec.Faults), "refuse": len(spec.Refuse),
+				"law109_guard": g109, "law109_set": g109set, "role_minimums_asked": gRoles}
 			emit(fmt.Sprintf("cycle-%d", i), 1, spec.Enc(), kind, evicted+discarded+failedPipe > 0, desc)
 			// votes on the same cluster
 			for k := 0; k < 2; k++ {
